@@ -2,11 +2,12 @@
 # Build the framework from files on disk only (offline): fact extractor, generated Lean files,
 # the whole Lean project (model, lemmas, property theorems) and the native model driver.
 set -e
-cd /verif
+HERE="$(cd "$(dirname "$0")" && pwd)"
+cd "$HERE"
 export GOFLAGS=-mod=mod GOPROXY=off GOSUMDB=off GOTOOLCHAIN=local
 mkdir -p .build evidence replays
-(cd tools/extract && go build -o /verif/.build/extract .)
+(cd tools/extract && go build -o "$HERE/.build/extract" .)
 mkdir -p lean/GoSnaps/Generated
-/verif/.build/extract /repo lean/GoSnaps/Generated || echo "setup: extractor failed on the current tree (checks will report it)"
+"$HERE/.build/extract" /repo lean/GoSnaps/Generated || echo "setup: extractor failed on the current tree (checks will report it)"
 (cd lean && lake build 2>&1 | tail -5)
 echo "setup done"
